@@ -446,6 +446,10 @@ pub struct ImageCase {
     pub max_gap: f32,
     pub buffered: Vec<u16>,
     pub qseed: u64,
+    /// 6 / 7: every value of the image is multiplied by the power of two that brings the largest magnitude just
+    /// below the maximum of the value type (f32 / f64), resp. half of it; other values: unscaled
+    #[serde(default)]
+    pub range_sel: u8,
 }
 
 pub fn image_case() -> impl Strategy<Value = ImageCase> {
@@ -459,9 +463,9 @@ pub fn image_case() -> impl Strategy<Value = ImageCase> {
         prop_oneof![1 => Just(0.0f32), 3 => 0.001f32..100.0],
         prop_oneof![1 => Just(0.0f32), 3 => 0.001f32..100.0],
         proptest::collection::vec(any::<u16>(), 0..6),
-        any::<u64>(),
+        (any::<u64>(), 0u8..8),
     )
-        .prop_map(|(k, enc, reverse_merge, start, steps, weights, min_gap, max_gap, buffered, qseed)| ImageCase {
+        .prop_map(|(k, enc, reverse_merge, start, steps, weights, min_gap, max_gap, buffered, (qseed, range_sel))| ImageCase {
             k,
             enc,
             reverse_merge,
@@ -472,6 +476,7 @@ pub fn image_case() -> impl Strategy<Value = ImageCase> {
             max_gap,
             buffered,
             qseed,
+            range_sel,
         })
 }
 
@@ -521,6 +526,24 @@ pub fn build_image(c: &ImageCase) -> (spec::TdImage, spec::Enc) {
                 min = min.min(v);
                 max = max.max(v);
             }
+        }
+    }
+    if c.range_sel >= 6 {
+        let m = cents.iter().map(|x| x.0.abs()).chain(buffered.iter().map(|v| v.abs())).chain([min.abs(), max.abs()]).fold(0.0f64, f64::max);
+        if m > 0.0 && m.is_finite() {
+            let top = if matches!(enc, spec::Enc::Float | spec::Enc::CompatFloat) { 127 } else { 1023 };
+            let e = top - (m.log2().floor() as i32) - if c.range_sel == 7 { 2 } else { 1 };
+            // a power of two: exact in both value types, order preserved
+            let f = 2f64.powi(e.clamp(0, 1023));
+            let f2 = 2f64.powi((e - e.clamp(0, 1023)).max(0));
+            for x in cents.iter_mut() {
+                x.0 = x.0 * f * f2;
+            }
+            for v in buffered.iter_mut() {
+                *v = *v * f * f2;
+            }
+            min = min * f * f2;
+            max = max * f * f2;
         }
     }
     (spec::TdImage { k: c.k, empty: false, single: false, reverse_merge: c.reverse_merge, min, max, centroids: cents, buffered }, enc)
